@@ -115,6 +115,11 @@ class C07(scen.WorldProp):
             for i in range(k + 1, len(rows)):
                 if rows[i] != opening:
                     return f"Rounds during row {k}: row {i} = {rows[i]} is not the opening row"
+        if stop == THATS_ALL and not in_method and k + 1 < len(rows) and rows[k] == rounds:
+            # "rounds at once if the row in progress already was rounds" - also when that row is the last
+            # one before the method was due to start (a Go made just before, or the up-down-in count)
+            if rows[k + 1] != rounds:
+                return f"That's all during rounds (row {k}, before the method started) but row {k+1} = {rows[k+1]}"
         if stop == THATS_ALL and in_method:
             for i in range(k + 2, len(rows)):
                 if rows[i] != rounds:
